@@ -73,6 +73,15 @@ def legal_menu(st, o=DEFAULT_OPTS):
                 t = card_text([st.deck_cards[-1]])
                 if st.can_deal_hole(t):
                     add((('deal_hole', t), 1))
+            d = st.hole_dealee_index
+            pend = len(st.hole_dealing_statuses[d]) if d is not None else 0
+            if pend >= 3 and len(st.deck_cards) > pend:
+                # one call dealing known and unknown cards interleaved (known ones from the far end of the deck)
+                ks = list(st.deck_cards)[-pend:]
+                for pat in ('UKUKU', 'KUUKU'):
+                    t = ''.join('??' if pat[j % 5] == 'U' else card_text([ks[j]]) for j in range(pend))
+                    if st.can_deal_hole(t):
+                        add((('deal_hole', t), 1))
     if st.can_deal_board():
         add((('deal_board',), 0))
         if mix:
@@ -99,6 +108,10 @@ def legal_menu(st, o=DEFAULT_OPTS):
                 add((('stand_pat_or_discard', card_text(hc[:2])), cost))
             elif mode == 'all' and len(hc) > 2:
                 add((('stand_pat_or_discard', card_text(hc)), cost))
+            elif mode == 'unknowns':
+                u = sum(1 for c in hc if c.unknown_status)
+                for k in sorted({2, u} if u >= 2 else ()):
+                    add((('stand_pat_or_discard', '??' * k), cost))
     if st.actor_indices:
         if st.can_check_or_call():
             add((('check_or_call',), 0))
